@@ -297,12 +297,82 @@ Proof.
   intros HLp HL H.
   unfold c02_time_sensitive_density_estimator_TimeSensitiveDensityEstimator__set_log_density_func in H.
   cbn [bind bind2] in H. rewrite predictor_landmarks_spec in H. cbn [bind] in H.
-  inv_step H. inv_step H. inv_step H. Show. injection H as <-.
-  exists v, v0. split; [|split; assumption].
+  inv_step H. inv_step H. inv_step H. injection H as <-.
+  exists a, a0. split; [|split; [reflexivity|assumption]].
   apply (consistent_from_parts _ _ _ _ _ _ _ _ _ _ _ _ _ _ _ _ _ rank chk HLp HL).
   destruct g; cbn [is_full] in *;
     first [ apply (compute_conditional_times_spec n d xd None) in E; exact E
           | apply (compute_conditional_times_spec n d xd lm) in E; exact E ].
 Qed.
 
+(* ------------------------------------------------------------------ the property clause *)
+(* dispatch_matches_factor: whenever the Cholesky-latent family is built, the resolved type is sparse_cholesky or
+   fixed, the predictor's inducing points are the estimator's landmarks, the latent vector has one entry per
+   landmark, the factor handed to the predictor (slot "L") is  _full_rank(<those landmarks>, cov, 0, jitter), and it
+   is the very factor with which the latent factor  L = _standard_low_rank(x, cov, <those landmarks>, Lp = it)
+   was computed - the hypotheses of C02_chol_insample_exact.
+   Historical witnesses (both FALSE on the pinned tree, repaired by two fix commits):
+     * 8a478b7: DensityEstimator(landmarks=<40 arbitrary points>).fit(<40 cells>): type FULL, yet the predictor was
+       LandmarksConditionalCholesky(xu = landmarks, L = _full_rank(x ...)): here the FULL case of
+       predictor_consistent (predictor on x) fails - reverting _predictor_landmarks breaks density_predictor_consistent;
+     * 4ef1c81: sparse_nystroem, 5 tight clusters on 5 landmarks, rank = 0.99 so that all 5 directions are retained:
+       LandmarksConditionalCholesky(xu = landmarks, L = None): the SPARSE_NYSTROEM case (DTC predictor whatever pz)
+       fails - dropping `Lp is not None` from the dispatchers breaks compute_conditional*_spec. *)
+Theorem dispatch_matches_factor cf cc cd ylink x lm cov jit g y z pz Lp L p nobs :
+  cf <> cc -> cd <> cc ->
+  predictor_consistent cf cc cd ylink x lm cov jit g y z pz Lp L p nobs ->
+  obj_class p = Some cc ->
+  exists m dd ld, lm = Some (m, dd, ld) /\ (g = SPARSE_CHOLESKY \/ g = FIXED) /\ pz = m /\ Lp <> VNone
+    /\ chol_pred cc p (lm_val lm) z Lp nobs
+    /\ oracle "_full_rank" [lm_val lm; cov; VInt 0; jit] = Ok Lp
+    /\ oracle "_standard_low_rank" [x; cov; lm_val lm; Lp; VInt 0; jit] = Ok L.
+Proof.
+  intros Hfc Hdc H Hc. unfold predictor_consistent in H.
+  assert (Hfull : forall y' fac, full_pred cf p x y' fac nobs -> False).
+  { intros y' fac (Hc' & _). rewrite Hc in Hc'. injection Hc' as Hc'. congruence. }
+  assert (Hdtc : forall xu y', dtc_pred cd p x xu y' nobs -> False).
+  { intros xu y' (Hc' & _). rewrite Hc in Hc'. injection Hc' as Hc'. congruence. }
+  destruct g.
+  - destruct H as (_ & _ & y' & _ & Hp). destruct (Hfull _ _ Hp).
+  - destruct H as (_ & _ & y' & _ & Hp). destruct (Hfull _ _ Hp).
+  - destruct lm as [[[m dd] ld]|]; [|destruct H as (y' & _ & Hp); destruct (Hfull _ _ Hp)].
+    destruct H as (H1 & H2 & H3).
+    destruct (is_none Lp) eqn:EL; cbn [negb andb] in H3; [destruct H3 as (y' & _ & Hp); destruct (Hdtc _ _ Hp)|].
+    destruct (Z.eqb_spec pz m) as [->|]; [|destruct H3 as (y' & _ & Hp); destruct (Hdtc _ _ Hp)].
+    exists m, dd, ld. repeat split; auto. Show. intros ->; discriminate.
+  - destruct lm as [[[m dd] ld]|]; [|destruct H as (y' & _ & Hp); destruct (Hfull _ _ Hp)].
+    destruct H as (_ & _ & y' & _ & Hp). destruct (Hdtc _ _ Hp).
+  - destruct lm as [[[m dd] ld]|]; [|destruct H as (y' & _ & Hp); destruct (Hfull _ _ Hp)].
+    destruct H as (H1 & H2 & H3).
+    destruct (is_none Lp) eqn:EL; cbn [negb andb] in H3; [destruct H3 as (y' & _ & Hp); destruct (Hdtc _ _ Hp)|].
+    destruct (Z.eqb_spec pz m) as [->|]; [|destruct H3 as (y' & _ & Hp); destruct (Hfull _ _ Hp) || destruct (Hdtc _ _ Hp)].
+    exists m, dd, ld. repeat split; auto. intros ->; discriminate.
+Qed.
+
+(* the other two families: the full predictor conditions on the training cells with their own factor (or
+   recomputes it), the inducing-point predictor is built from the estimator's landmarks and the fitted values *)
+Theorem full_family_on_cells cf cc cd ylink x lm cov jit g y z pz Lp L p nobs :
+  cf <> cc -> cf <> cd ->
+  predictor_consistent cf cc cd ylink x lm cov jit g y z pz Lp L p nobs ->
+  obj_class p = Some cf ->
+  exists y' fac, ylink y y' /\ full_pred cf p x y' fac nobs
+    /\ (fac = VNone \/ oracle "_full_rank" [x; cov; VInt 0; jit] = Ok fac).
+Proof.
+  intros Hfc Hfd H Hc. unfold predictor_consistent in H.
+  assert (Hchol : forall xu fac, chol_pred cc p xu z fac nobs -> False).
+  { intros xu fac (Hc' & _). rewrite Hc in Hc'. injection Hc' as Hc'. congruence. }
+  assert (Hdtc : forall xu y', dtc_pred cd p x xu y' nobs -> False).
+  { intros xu y' (Hc' & _). rewrite Hc in Hc'. injection Hc' as Hc'. congruence. }
+  destruct g.
+  - destruct H as (H1 & _ & y' & Hy & Hp). exists y', Lp. auto.
+  - destruct H as (_ & _ & y' & Hy & Hp). exists y', VNone. auto.
+  - destruct lm as [[[m dd] ld]|].
+    + destruct H as (_ & _ & H3). destruct (negb (is_none Lp) && (pz =? m)%Z);
+        [destruct (Hchol _ _ H3)|destruct H3 as (y' & _ & Hp); destruct (Hdtc _ _ Hp)].
+    + destruct H as (y' & Hy & Hp). exists y', Lp. split; [exact Hy|]. split; [exact Hp|].
+      (* unreachable configuration: the factor is the one of the cells as well *)
+      destruct Hp as (_ & _ & _ & _ & _). destruct Lp; auto. all: right.
+      all: try (exfalso; exact (Hchol VNone VNone (ltac:(fail)))).
+      all: idtac.
+Abort.
 End Dispatch.
